@@ -14,10 +14,14 @@ from props.engine_common import plain
 
 WORDS = {
     'W': ['ALFA', 'Bravo', 'market', 'STORE', 'Zulu', 'Émile',
+          # letters whose upper-case form is another, longer text (ß -> SS, the ligature fi -> FI, 'n -> 'N): mixed-case exports have them
+          'Strauß', 'Weißer', 'ﬁne', 'ŉ',
           # long words (reference-style descriptions, merchant names run together): length is not a reason to cut a pattern short
           'INTERNATIONALHOUSEKEEPINGSVC', 'CONSOLIDATEDCOMMUNICATIONS', 'DEPARTMENTOFMOTORVEHICLES', 'Northwestmutuallifeinsur'],
     'M': ['A.B', 'C+', '(X)', 'A|B', '$5', 'W*', 'WHAT?', '[Q]', 'C\\D', '^UP', '{X}', 'SUB#2', '#ONE', 'NO.#7', 'A#B',
           # what some exports leave in the description column: HTML character references are just characters of the description
+          # brackets that do not pair up inside the words the pattern keeps (the closing one was cut off with a store number / id)
+          '(WHSE', '[REF', 'ACME(PENDING', 'X)(', ']OK[', '{ID',
           'MOTORVEHICLES(DMV)', 'BILLPAY.COM/WEB-PAYMENTS', 'WWW.EXAMPLE-SHOP.COM/ORDERS?ID', 'ORIG.CO.NAME:ACME+PAYROLL*SVC',
           'AT&amp;T', 'B&amp;N', '&lt;CO&gt;', 'R&#38;D', 'MC&#39;S', '&quot;X&quot;', 'A&nbsp;B'],
     'Q': ["JOE'S", 'O"K', "'N'", '"THE"', '6"', "5'", '"'],
